@@ -7,5 +7,13 @@ CHECKS = {
    technique="symbolic execution of parent and derivative functions + symbolic differentiation + z3 (QF_NRA, exp/ln axioms)",
    text="Bounded symbolic model checking: the parent's own source is executed on symbolic inputs, differentiated exactly, and z3 shows no input in the stated parameter box makes the hand-coded derivative differ by more than 1e-9 relative; both sides of the bubble point are separate paths; the assembly of oil_compressibility_Standing is checked against its defining combination with library calls as uninterpreted recording stubs and with the library's own functions.",
    note="Real arithmetic (no rounding); exp/ln abstracted by uninterpreted symbols with instantiated true axioms (unsat transfers); parameter box T 80..350 F, API 12..55, gas gravity 0.56..1.3, GOR 20..2500, p 15..20000 psia, water T 60..400 F; b_factor_DAK and Spivey compressibility are uninterpreted in the c_o assembly."),
+ "C06": dict(
+   technique="symbolic execution of z_factor_DAK with the root finder as a contract stub + z3; reference-with-deviation for the known coefficient finding",
+   text="Bounded symbolic model checking of gas.z_factor_DAK: the closure the code hands to its root finder is captured by a contract stub (r in [a,b], f(r)=0) and z3 shows that, for every (T_r, p_r) in the validity rectangle and every root the contract allows, the returned Z satisfies the Dranchuk-Abou-Kassem residual (published form: open known finding on the first coefficient, re-confirmed concretely on each run; published form with exactly that deviation: must hold) and equals 0.27 p_r/(rho T_r). If the code minimises an objective instead, the objective is compared with |F/F'| of the reference and the optimiser's contract is shown not to imply a root, replayed on the real optimiser.",
+   note="Real arithmetic; exp abstracted with instantiated true axioms; the root finder is trusted to meet its contract (exact root modelled; xtol/rtol recorded); whether the sign-change precondition can fail inside the rectangle is attempted and reported as undecided when z3 answers unknown; continuity in p, Z->1 and Hall-Yarbrough are outside the claim (DESIGN.md section 5)."),
+ "C07": dict(
+   technique="symbolic execution + implicit symbolic differentiation of the library's own EOS closure + z3 / rational normal form",
+   text="Bounded symbolic model checking: density_DAK = pM/(ZRT) and density*Bg independent of pressure with Z an uninterpreted function (argument lists checked); compressibility_DAK equals the logarithmic pressure-derivative of the density implied by z_factor_DAK's own residual closure (implicit differentiation, state parametrised by reduced density; open known finding, plus the same obligation against the published EOS which must hold); viscosity_Sutton positive and increasing in the density it is fed (two-point); oil and water density*FVF identities with the library's own calls.",
+   note="Real arithmetic; exp/ln abstracted with instantiated true axioms; 'viscosity increases with pressure' is decided only as 'increases with density' (c_g>0 over the rectangle is assumed, a transcendental sign claim); boxes: T 60..400 F, 1.05<=T_r<=3, p_r<=30, Z in [0.05,5], gas gravity 0.55..1.2, rho 0.001..40 lb/ft3, oil box as C13, salinity 0..25 wt%."),
 }
 NOT_APPLICABLE = {f"C{n:02d}": PENDING for n in range(1, 21)}
